@@ -46,6 +46,7 @@ fn main() {
             let thorough = tier == "thorough";
             let plan = match prop {
                 "C15" => props::plan_c15(tier, seed),
+                "C12" => props::plan_c12(tier, seed),
                 "C01" | "C02" => props::plan_c01(tier, seed, if thorough { 6000 } else { 400 }),
                 "C03" | "C04" | "C05" | "C06" | "C09" | "C10" | "C11" | "C13" | "C17" | "C18" => {
                     props::plan_history(prop, tier, seed, if thorough { 20000 } else { 600 })
